@@ -6,7 +6,7 @@ import ast
 from typing import Dict, List, Optional, Tuple
 
 from .. import materialize, rx
-from ..core import Ctx, filter_semantics, presence_test, assigned_names, dotted, names_in, norm, stmts_local, walk_local
+from ..core import Ctx, Locals, filter_semantics, presence_test, assigned_names, dotted, names_in, norm, stmts_local, walk_local
 from ..paths import enumerate_paths, guards_of
 from ..typed import Typed, eyecite_class
 
@@ -35,6 +35,26 @@ def year_stores(ctx: Ctx, typed: Typed):
     return out
 
 
+def _through_local(fn, v):
+    """`year = get_year(text)` ... `citation.year = year`: a local all of whose bindings are get_year(..) or None stands for that call"""
+    if not isinstance(v, ast.Name):
+        return v
+
+    def _parsed(e):
+        if isinstance(e, ast.Constant) and e.value is None:
+            return True
+        if isinstance(e, ast.IfExp):
+            return _parsed(e.body) and _parsed(e.orelse)
+        return isinstance(e, ast.Call) and dotted(e.func) == "get_year" and len(e.args) == 1
+    defs = [d for d in walk_local(fn) if isinstance(d, (ast.Assign, ast.AnnAssign, ast.AugAssign, ast.For, ast.NamedExpr, ast.With)) and v.id in assigned_names(d)]
+    if defs and all(isinstance(d, ast.Assign) and len(d.targets) == 1 and isinstance(d.targets[0], ast.Name) and _parsed(d.value) for d in defs) \
+            and v.id not in [a.arg for a in fn.args.args]:
+        calls = [d.value for d in defs if isinstance(d.value, ast.Call)] + [d.value.body for d in defs if isinstance(d.value, ast.IfExp) and isinstance(d.value.body, ast.Call)]
+        if calls:
+            return calls[0]
+    return v
+
+
 def rule_year_writers(ctx: Ctx, typed: Typed):
     repo = ctx.repo
     stores = year_stores(ctx, typed)
@@ -42,6 +62,7 @@ def rule_year_writers(ctx: Ctx, typed: Typed):
     for q, m, fn, st, tgt, v in stores:
         recv = norm(tgt.value)
         ok, why = False, f"right-hand side `{norm(v)[:60]}`"
+        v = _through_local(fn, v)
         if isinstance(v, ast.Call) and dotted(v.func) == "get_year" and len(v.args) == 1:
             ok, why = True, f"get_year({norm(v.args[0])[:40]})"
         elif q.endswith(".is_parallel_citation") and isinstance(v, ast.Attribute) and v.attr == "year" and norm(v.value) != recv:
@@ -53,6 +74,8 @@ def rule_year_writers(ctx: Ctx, typed: Typed):
     for q, m, fn, st, tgt, v in stores:
         recv = norm(tgt.value)
         src = None
+        local = v.id if isinstance(v, ast.Name) else None
+        v = _through_local(fn, v)
         if isinstance(v, ast.Call) and dotted(v.func) == "get_year" and v.args:
             src = norm(v.args[0])
         elif isinstance(v, ast.Attribute) and v.attr == "year":
@@ -72,6 +95,11 @@ def rule_year_writers(ctx: Ctx, typed: Typed):
                 if ev[0] == "stmt" and isinstance(ev[1], ast.Assign):
                     for t in ev[1].targets:
                         if norm(t) == f"{recv}.metadata.year" and norm(ev[1].value) == src:
+                            paired = True
+                        # the textual year rebuilt from the parsed number (its leading four digits are that number), or dropped with it
+                        if local and norm(t) == f"{recv}.metadata.year" and (norm(ev[1].value) == f"str({local})" or (
+                                isinstance(ev[1].value, ast.Constant) and ev[1].value.value is None
+                                and any(e2[0] == "cond" and norm(e2[1]) == local and not e2[2] for e2 in p.events))):
                             paired = True
             if not paired:
                 bad = p
